@@ -308,5 +308,25 @@ def generate():
     return text
 
 
+def record():
+    """rewrite the recorded tables of coq/NetWiring.v from the current source (done by hand, after
+    NetModel.v has been brought in line with an intended change of the code)"""
+    verif = os.path.dirname(os.path.dirname(os.path.abspath(__file__)))
+    path = os.path.join(verif, "coq", "NetWiring.v")
+    t = generate()
+    w = t[t.index("Definition wiring_from_source"):t.index("Definition digests_from_source")].replace(
+        "wiring_from_source", "expected_wiring")
+    d = t[t.index("Definition digests_from_source"):].replace("digests_from_source", "expected_digests")
+    old = open(path).read()
+    head = old[:old.index("Definition expected_wiring")]
+    with open(path, "w") as f:
+        f.write(head + w + "\n" + d)
+    print("recorded", path)
+
+
 if __name__ == "__main__":
-    print(generate())
+    import sys
+    if "--record" in sys.argv:
+        record()
+    else:
+        print(generate())
